@@ -1,0 +1,53 @@
+//go:build verif
+
+package embedded
+
+import (
+	"sort"
+
+	"github.com/zenon-network/go-zenon/common/types"
+)
+
+// VerifMethodEntry is one callable (contract, method) pair of a method table.
+type VerifMethodEntry struct {
+	Contract types.Address
+	Name     string
+	Selector []byte // 4-byte ABI selector; nil if the name is in the method map but not in the contract's ABI
+}
+
+func verifDump(m map[types.Address]*embeddedImplementation) []VerifMethodEntry {
+	res := make([]VerifMethodEntry, 0)
+	for addr, impl := range m {
+		for name := range impl.m {
+			e := VerifMethodEntry{Contract: addr, Name: name}
+			if am, ok := impl.abi.Methods[name]; ok {
+				e.Selector = append([]byte{}, am.Id()...)
+			}
+			res = append(res, e)
+		}
+	}
+	sort.Slice(res, func(i, j int) bool {
+		if res[i].Contract != res[j].Contract {
+			return string(res[i].Contract[:]) < string(res[j].Contract[:])
+		}
+		return res[i].Name < res[j].Name
+	})
+	return res
+}
+
+// VerifMethodTables returns the four method tables used by GetEmbeddedMethod, in the order
+// origin, accelerator, bridge-and-liquidity, htlc. Verification harness only.
+func VerifMethodTables() [4][]VerifMethodEntry {
+	return [4][]VerifMethodEntry{verifDump(originEmbedded), verifDump(acceleratorEmbedded), verifDump(bridgeAndLiquidityEmbedded), verifDump(htlcEmbedded)}
+}
+
+// VerifAbiSelectors returns, per contract of a table, every selector its ABI knows (callable or not).
+func VerifAbiSelectors() map[types.Address][][]byte {
+	res := map[types.Address][][]byte{}
+	for addr, impl := range htlcEmbedded {
+		for _, am := range impl.abi.Methods {
+			res[addr] = append(res[addr], append([]byte{}, am.Id()...))
+		}
+	}
+	return res
+}
